@@ -205,14 +205,25 @@ class Ledger:
         """a ledger entry for the same function and kind whose description equals this site's up to the names of locals
         (a renamed local or parameter must not orphan a reviewed entry); only entries no current site matches exactly"""
         names = set()
+        copies = {}
         for o in site.operands:
             for x in expr_walk(o):
                 if x[0] in ("local", "arg") and isinstance(x[2], str):
                     names.add(x[2])
+                    if x[0] == "local":
+                        # `let start = self.cursor;` - a named local that only holds a copy of a place stands for that place
+                        sd = site.fn.single_def(x[1])
+                        if sd and sd[0] == "stmt" and sd[3]["r"]["k"] == "use" and sd[3]["r"]["a"].get("k") in ("copy", "move"):
+                            copies[x[2]] = expr_str(site.fn.rvalue_expr(sd[3]["r"], 8, stop={"named"}), 60)
         if not names:
             return None
         live = {s.key for s in self.sites}
         prefix = "%s|%s|" % (short(site.fn.name), site.kind)
+        if copies:
+            unfolded = re.sub(r"[A-Za-z_][A-Za-z_0-9]*", lambda m_: copies.get(m_.group(0), m_.group(0)), site.desc)
+            k = prefix + unfolded
+            if unfolded != site.desc and k in self.db and k not in live:
+                return self.db[k]
         tok = re.compile(r"[A-Za-z_][A-Za-z_0-9]*|\S")
         mine = tok.findall(site.desc)
         hits = []
@@ -610,6 +621,21 @@ class Ledger:
             r = _constraint_interval(c, v, e)
             if r:
                 best = _meet(best, r)
+        # ... or bound it by another quantity whose own range is known (`i < s.len()`)
+        if depth < 6:
+            for c, v in cons:
+                if not (c[0] == "bin" and c[1] in ("Lt", "Le", "Gt", "Ge") and v in (0, 1, ("not", [0]))):
+                    continue
+                op = c[1] if v != 0 else {"Lt": "Ge", "Le": "Gt", "Gt": "Le", "Ge": "Lt"}[c[1]]
+                if _same(c[3], e) and c[2][0] != "const":
+                    other, op = c[2], {"Lt": "Gt", "Le": "Ge", "Gt": "Lt", "Ge": "Le"}[op]
+                elif _same(c[2], e) and c[3][0] != "const":
+                    other = c[3]
+                else:
+                    continue
+                ob = self.ival(fn, other, [], depth + 6)
+                if ob:
+                    best = _meet(best, {"Lt": (-10**30, ob[1] - 1), "Le": (-10**30, ob[1]), "Gt": (ob[0] + 1, 10**30), "Ge": (ob[0], 10**30)}[op])
         r = None
         if k in ("arg", "local"):
             ty = fn.local_ty(e[1])
@@ -686,6 +712,13 @@ class Ledger:
                 pass
             elif c.endswith("::len") or c.endswith("::count") or c.endswith("len_utf8"):
                 r = (1, 4) if c.endswith("len_utf8") else (0, 2**63 - 1)
+            elif re.search(r"core::str::<impl str>::r?find$|Iterator>?::position$", c):
+                r = (0, 2**63 - 2)          # Some(i) => i < len <= isize::MAX (read through unwrap_or below)
+            elif c.endswith("Option::<T>::unwrap_or") and len(e[2]) == 2:
+                a = self.ival(fn, e[2][0], cons, depth + 1)
+                b = self.ival(fn, e[2][1], cons, depth + 1)
+                if a and b:
+                    r = (min(a[0], b[0]), max(a[1], b[1]))
             elif m and m.group(2) in ("wrapping_add", "wrapping_sub", "wrapping_mul"):
                 r = TY_RANGE.get(m.group(1))
             elif m and m.group(2) in ("min", "max") and len(e[2]) == 2:
